@@ -60,6 +60,13 @@ def cases(prop, shard, nshards, seed, tier, want_models=False):
     for hops in ([{"op": "first-n", "n": 0}], [{"op": "first-n", "n": 1}], [{"op": "backbone-only"}], [{"op": "first-n", "n": 2}, {"op": "thin-atoms", "seed": "d", "frac": 1.0, "names": ["N1", "N2", "N3", "N4", "N6", "N7", "O2", "O4", "O6", "O2'", "O4'", "OP1", "OP2", "O3'", "O5'"]}]):
         if mine():
             yield {"family": "degenerate-" + hops[-1]["op"], "file": "tests/1A1T_1_B.cif", "ops": hops}
+    # through the real reader: PDB / mmCIF text whose fields are filled to their edges - five-digit serials touching
+    # the record name (HETATM10001), modified nucleotides as HETATM, coordinates <= -100 / >= 1000 that fill their eight
+    # columns, negative residue numbers, Windows line endings
+    for t, fn in enumerate(("tests/1ehz-assembly-1.cif", "tests/1ATO.pdb", "tests/488d.pdb", "tests/4qln.pdb", "tests/1E7K_1_C.cif", "tests/1A1T_1_B.cif")):
+        for v in range(2 if tier == "quick" else 6):
+            if mine():
+                yield {"family": "through-reader-field-edges", "file": fn, "t": t * 10 + v, "ops": []}
     # through the real reader: the text of a structure in which a few residues have a nearly superposed second copy
     # (a disorder deposited as two chains, as B/D of 488d.pdb) with equal or unequal occupancies - what the reader
     # keeps of the two copies is what gets annotated
@@ -152,6 +159,100 @@ def translated(seed, prop, case):
         if sum(v * v for v in vec) < 1.0:
             vec[2] = 3.4
         yield {"file": fn, "i": i, "vec": vec}, gen3d.translated_copy(s, i, vec)
+
+
+STANDARD_NAMES = ("A", "C", "G", "U", "DA", "DC", "DG", "DT", "T")
+
+
+def field_edges_rows(rows, rng):
+    """In place: what deposited files of large entries look like.  Returns a description."""
+    desc = {}
+    for r in rows:
+        if r["resname"] not in STANDARD_NAMES:
+            r["rec"] = "HETATM"
+    off = rng.choice([9990, 9999, 20000, 99999 - len(rows)])
+    if off + len(rows) <= 99999:
+        for i, r in enumerate(rows, 1):
+            r["serial"] = i + off
+        desc["serials-from"] = off + 1
+    shift = rng.choice([(-160.0, 0.0, 0.0), (-400.0, -250.0, -120.0), (1200.0, 1500.0, 2000.0), (-130.0, 1100.0, -99.5), (0.0, 0.0, 0.0)])
+    for r in rows:
+        r["x"], r["y"], r["z"] = round(r["x"] + shift[0], 3), round(r["y"] + shift[1], 3), round(r["z"] + shift[2], 3)
+    desc["translated-by"] = shift
+    num = rng.choice([0, 0, -40, -7, -998])
+    if num:
+        low = min(r["resseq"] for r in rows)
+        for r in rows:
+            r["resseq"] = r["resseq"] - low + num
+        desc["numbers-from"] = num
+    return desc
+
+
+def structure_from_rows(rows, read):
+    """Structure3D holding exactly the atoms of `rows` (first model), identified by author identity; one-letter names
+    as the reader decided them for the same residue (fallback: the residue name's last letter)."""
+    from rnapolis import tertiary
+    from rnapolis.common import ResidueAuth
+
+    letters = {}
+    for r in read.residues:
+        a = r.auth
+        if a is not None:
+            letters[(a.chain, a.number, a.icode)] = r.one_letter_name
+    first = rows[0]["model"] if rows else 1
+    groups, order = {}, []
+    for r in rows:
+        if r["model"] != first:
+            continue
+        k = (r["chain"], r["resseq"], r["icode"], r["resname"])
+        if k not in groups:
+            groups[k] = []
+            order.append(k)
+        groups[k].append(r)
+    residues = []
+    for k in order:
+        auth = ResidueAuth(k[0], k[1], k[2], k[3])
+        atoms = tuple(tertiary.Atom(None, None, auth, first, r["name"], float(r["x"]), float(r["y"]), float(r["z"]), r["occ"]) for r in groups[k])
+        residues.append(tertiary.Residue3D(None, auth, first, letters.get((k[0], k[1], k[2]), k[3][-1:]), atoms))
+    return tertiary.Structure3D(residues)
+
+
+def _interaction_keys(s, prop):
+    from rnapolis import annotator
+
+    bi = annotator.extract_base_interactions(s, None)
+    ak = lambda r: (r.auth.chain, r.auth.number, r.auth.icode, r.auth.name) if r.auth is not None else None
+    out = set()
+    if prop in ("C03", "C11"):
+        out |= {("pair", ak(p.nt1), ak(p.nt2), p.lw.value) for p in bi.basePairs}
+    if prop in ("C04", "C11"):
+        out |= {("stacking", ak(p.nt1), ak(p.nt2), p.topology.value) for p in bi.stackings}
+    if prop == "C11":
+        out |= {("bph", ak(p.nt1), ak(p.nt2), str(p.bph)) for p in bi.basePhosphateInteractions}
+        out |= {("br", ak(p.nt1), ak(p.nt2), str(p.br)) for p in bi.baseRiboseInteractions}
+    return out
+
+
+def field_edges_text(seed, prop, case, want_rows=False):
+    from vmon import emit
+
+    rng = random.Random(f"{seed}:{prop}:edges:{case['t']}")
+    rows = emit.rows_from_structure(gen3d.load(case["file"], 1))
+    desc = {"file": case["file"], "through-reader": True, "t": case["t"]}
+    desc.update(field_edges_rows(rows, rng))
+    fmt = ".pdb" if rng.random() < 0.75 else ".cif"
+    if fmt == ".pdb" and not (emit.fits_pdb(rows) and all((r["chain"] or "").strip() and len(r["chain"]) == 1 for r in rows)):
+        fmt = ".cif"
+    text = emit.emit_pdb(rows) if fmt == ".pdb" else emit.emit_cif(rows)
+    tv = rng.choice([0, 0, 1, 2])
+    text = emit.text_variant(text, tv, fmt[1:])
+    desc.update({"format": fmt, "text-variant": tv})
+    try:
+        res = emit.read_text(text, fmt)
+    except Exception as e:
+        desc["reader-exception"] = repr(e)[:200]
+        res = None
+    return (res, desc, rows) if want_rows else (res, desc)
 
 
 def superposed_text(seed, prop, case):
@@ -251,6 +352,26 @@ def run_case(prop, case, rec, call):
             mon3d._cur["ctx"] = {"model-1": case["file"], "model-2": case["other"], "one-structure": True, "model": m, "order-on-this-object": case["order"]}
             n += call(s, m)
         rec.mark_nontrivial(n > 0)
+        return
+    if fam == "through-reader-field-edges":
+        s, desc, rows = field_edges_text(seed, prop, case, want_rows=True)
+        mon3d._cur["ctx"] = desc
+        if s is None:
+            return
+        n = call(s, None)
+        rec.mark_nontrivial(n > 0)
+        # what is annotated for the FILE must be what is annotated for the atoms written into it: the same table as
+        # an in-memory structure (letters as the reader decided them), same coordinates to the last bit
+        twin = structure_from_rows(rows, s)
+        mon3d._cur["ctx"] = dict(desc, twin="in-memory structure of the written table")
+        try:
+            a, b = _interaction_keys(s, prop), _interaction_keys(twin, prop)
+        except Exception as e:
+            rec.undecided("file.annotation-equals-annotation-of-the-written-atoms", f"annotation raised {type(e).__name__}")
+            return
+        rec.check("file.annotation-equals-annotation-of-the-written-atoms", a == b,
+                  lambda: {"ctx": desc, "only-for-the-file": sorted(map(str, a - b))[:5], "only-for-the-written-atoms": sorted(map(str, b - a))[:5],
+                           "residues": [len(s.residues), len(twin.residues)], "atoms": [sum(len(r.atoms) for r in s.residues), sum(len(r.atoms) for r in twin.residues)]})
         return
     if fam == "through-reader-superposed-copies":
         s, desc = superposed_text(seed, prop, case)
